@@ -145,7 +145,11 @@ def record_sessions(ctx, n, script_len):
         tries += 1
         rng = random.Random((ctx.seed * 1000003 + ctx.shard * 7919 + tries * 104729) & 0xFFFFFFFF)
         try:
-            if rng.random() < 0.5:
+            if not out and tries <= 3:
+                # every shard starts with one session of a family written for this property, in rotation,
+                # so that each family is present in every run whatever the random mix
+                gp = [t_same_name_sum, t_replace_sum, t_size_div, t_two_precisions][ctx.shard % 4](rng)
+            elif rng.random() < 0.5:
                 gp = _template(rng)
             else:
                 gp = gen_program(rng, knobs(rng))
